@@ -597,6 +597,9 @@ class Checker:
             # an earlier output of this sequence could not be tabulated (a buffer, a helper): it may well carry the bytes that are looked for here
             _LAST = None
             return self.shape(slot, where, detail + ' (an earlier output of this sequence is in a form the extractor does not tabulate and may hold this field)')
+        if 'end of sequence' in detail and nx_ is not None and nx_[0] == 'loop' and any(isinstance(x_, tuple) and x_[0] == 'io' for x_ in _walk({'items': [nx_]})):
+            _LAST = None
+            return self.shape(slot, where, detail.replace('end of sequence', 'a loop that performs I/O') + ' (the field may be handled inside that loop)')
         if 'end of sequence' in detail and nx_ is not None and nx_[0] == 'call':
             _LAST = None
             return self.shape(slot, where, detail.replace('end of sequence', 'a call of %s' % nx_[1].name) + ' (the field is emitted through another function of the writer family)')
@@ -2385,6 +2388,10 @@ def parameters_reader_rule(prog, res, rule='parameters-read'):
     ck.r_field('key', 'readUint', 1, dest='this._checksum', cite=PL['key']['cite'])
     ck.r_field('block_count', 'readUint', 1, dest='this._nbParamBlock', cite=PL['block_count']['cite'])
     ck.r_field('processor', 'readUint', 1, dest='this._processorType', cite=PL['processor']['cite'])
+    if ck.failed:
+        # the prologue is not in the tabulated form: which of the following loops is the record walker is not established
+        ck.shape('walker', ck.where(ck.peek()), 'the prologue is not read field by field in the tabulated form; the record-chain loop is not identified')
+        return
     ck.skip_slots()
     lp = ck.take(('loop',))
     if lp is None:
